@@ -13,153 +13,17 @@ From EV Require Import Regex.C13Check Regex.DeclCap Regex.DeclCapSound.
 From EV Require Import Model.Tokenize Model.TokenizeEq Model.Editions Model.Filter Model.Pipeline.
 From EV Require Import Model.SearchEngine Model.Extract Model.E2E Model.E2EClosed.
 From EV Require Import Proofs.TokenizeProofs Proofs.PipeSpec Proofs.PipeMeta Proofs.ExtractSpec Proofs.ExtractProofs.
-From EV Require Import Proofs.ClosedProofs Proofs.ClosedCorollaries Proofs.SearchDischarge.
+From EV Require Import Proofs.ClosedProofs Proofs.PageGroup Proofs.ClosedCorollaries Proofs.SearchDischarge.
 From EV Require Import Gen.Unicode Gen.Lower Gen.ExtractorIndex Gen.ExtractTable.
 Close Scope Z_scope.
 Close Scope N_scope.
 Open Scope nat_scope.
 
-(* ------------------------------------------------------------------ *)
-(* 1. finditer is sound for the semantics with captures                 *)
-(* ------------------------------------------------------------------ *)
-Section FI.
-  Variable U0 : utables.
-
-  Lemma match_at_adv_MC : forall ci s r i j c,
-    i <= length s -> match_at_adv U0 ci s r i = Some (j, c) -> MC U0 ci s r i [] j c.
-  Proof.
-    intros ci s r i j c Hi Hm. unfold match_at_adv in Hm.
-    destruct (m_MC U0 ci s r i [] _ _ Hi Hm) as [j' [c' [HM Hk]]].
-    cbv beta in Hk. destruct (Nat.eqb j' i); [discriminate|].
-    injection Hk as Hj Hc. subst j' c'. exact HM.
-  Qed.
-
-  Lemma search_adv_MC : forall ci s r pos adv i j c,
-    pos <= length s -> search_adv U0 ci s r pos adv = Some (i, j, c) -> MC U0 ci s r i [] j c.
-  Proof.
-    intros ci s r pos adv i j c Hpos Hs. unfold search_adv in Hs.
-    destruct (if adv then match_at_adv U0 ci s r pos else match_at U0 ci s r pos)
-      as [[j0 c0]|] eqn:Hfirst.
-    - injection Hs as Hi Hj Hc. subst i j0 c0. destruct adv.
-      + exact (match_at_adv_MC ci s r pos j c Hpos Hfirst).
-      + exact (match_at_MC U0 ci s r pos j c Hpos Hfirst).
-    - destruct (Nat.ltb_spec pos (length s)) as [Hlt|Hge]; [|discriminate].
-      destruct (search_from_sound U0 ci s r _ (S pos) i j c Hlt Hs) as [_ [Hil [Hm _]]].
-      exact (match_at_MC U0 ci s r i j c Hil Hm).
-  Qed.
-
-  Lemma finditer_from_MC : forall ci s r fuel pos adv i j c,
-    pos <= length s -> In (i, j, c) (finditer_from U0 ci s r fuel pos adv) -> MC U0 ci s r i [] j c.
-  Proof.
-    intros ci s r fuel. induction fuel as [|f IHf]; intros pos adv i j c Hpos Hin;
-      cbn [finditer_from] in Hin.
-    - destruct Hin.
-    - destruct (search_adv U0 ci s r pos adv) as [[[i0 j0] c0]|] eqn:Hs; [|destruct Hin].
-      destruct Hin as [Heq|Hin].
-      + injection Heq as H1 H2 H3. subst i0 j0 c0. exact (search_adv_MC ci s r pos adv i j c Hpos Hs).
-      + destruct (search_adv_sound U0 ci s r pos adv i0 j0 c0 Hpos Hs) as [_ [_ [_ [Hj0 _]]]].
-        exact (IHf j0 _ i j c Hj0 Hin).
-  Qed.
-
-  Theorem finditer_MC : forall ci s r i j c,
-    In (i, j, c) (finditer U0 ci s r) -> MC U0 ci s r i [] j c.
-  Proof.
-    intros ci s r i j c Hin. unfold finditer in Hin.
-    exact (finditer_from_MC ci s r _ 0 false i j c (Nat.le_0_l _) Hin).
-  Qed.
-End FI.
+(* (finditer_MC, g1_body / g1_shape, gnum1, glookup_map_names: Proofs/PageGroup.v) *)
 
 (* ------------------------------------------------------------------ *)
-(* 2. the body of group 1 in the shapes accepted by group1_total        *)
+(* the row condition and the candidate-level fact                       *)
 (* ------------------------------------------------------------------ *)
-Definition g1_body (r : re) : option re :=
-  match r with
-  | Group 1 b => Some b
-  | Cat _ (Cat (Group 1 b) _) => Some b
-  | Cat _ (Group 1 b) => Some b
-  | Cat (Group 1 b) _ => Some b
-  | _ => None
-  end.
-
-Inductive g1_shape (b : re) : re -> Prop :=
-| G1_only : g1_shape b (Group 1 b)
-| G1_mid : forall a c, has_group c = false -> g1_shape b (Cat a (Cat (Group 1 b) c))
-| G1_end : forall a, g1_shape b (Cat a (Group 1 b))
-| G1_begin : forall c, has_group c = false -> g1_shape b (Cat (Group 1 b) c).
-
-Lemma group1_total_shape : forall r,
-  group1_total r = true -> exists b, g1_body r = Some b /\ g1_shape b r.
-Proof.
-  intros r H. unfold group1_total in H.
-  repeat match type of H with
-         | match ?x with _ => _ end = true => destruct x; try discriminate
-         end;
-    try (apply andb_true_iff in H; destruct H as [H1 H2]);
-    try match goal with H2 : negb _ = true |- _ => apply negb_true_iff in H2 end;
-    try match goal with H : negb _ = true |- _ => apply negb_true_iff in H end;
-    eexists; (split; [reflexivity|]);
-    first [ apply G1_only | apply G1_mid; assumption | apply G1_end | apply G1_begin; assumption ].
-Qed.
-
-Lemma has_group_groupless_MC : forall U0 ci s r i c j c',
-  has_group r = false -> MC U0 ci s r i c j c' -> c' = c.
-Proof.
-  intros U0 ci s r i c j c' Hg H.
-  destruct (MC_pre U0 ci s _ _ _ _ _ H) as [pre Hpre]. subst c'.
-  (* every group number is unmentioned, so pre has no entry at all *)
-  assert (Hm : forall n, mentions n r = false).
-  { clear H. intros n. induction r; cbn [has_group mentions] in *; try reflexivity.
-    - apply orb_false_iff in Hg. rewrite (IHr1 (proj1 Hg)), (IHr2 (proj2 Hg)). reflexivity.
-    - apply orb_false_iff in Hg. rewrite (IHr1 (proj1 Hg)), (IHr2 (proj2 Hg)). reflexivity.
-    - discriminate.
-    - exact (IHr Hg).
-    - exact (IHr Hg). }
-  destruct pre as [|[n sp] pre]; [reflexivity|].
-  pose proof (mentions_sound U0 ci s n _ _ _ _ _ _ (Hm n) H eq_refl) as Hn.
-  cbn [cap_get] in Hn. rewrite Nat.eqb_refl in Hn. discriminate.
-Qed.
-
-(* a match of a pattern of one of the four shapes: the final captures are group 1's entry on top
-   of the captures produced by its body *)
-Lemma g1_shape_MC : forall U0 ci s b r i j c,
-  g1_shape b r -> MC U0 ci s r i [] j c ->
-  exists i1 j1 c0 cb, MC U0 ci s b i1 c0 j1 cb /\ c = (1, (i1, j1)) :: cb.
-Proof.
-  intros U0 ci s b r i j c Hsh H. destruct Hsh as [|a c3 Hc3|a|c3 Hc3].
-  - inversion H; subst. eexists _, _, _, _. split; [eassumption|reflexivity].
-  - inversion H as [| | | | | | | |? ? ? j1 ? ? c1 ? Ha Hrest| | | | |]; subst.
-    inversion Hrest as [| | | | | | | |? ? ? j2 ? ? c2 ? Hg H3| | | | |]; subst.
-    inversion Hg; subst.
-    rewrite (has_group_groupless_MC _ _ _ _ _ _ _ _ Hc3 H3).
-    eexists _, _, _, _. split; [eassumption|reflexivity].
-  - inversion H as [| | | | | | | |? ? ? j1 ? ? c1 ? Ha Hg| | | | |]; subst.
-    inversion Hg; subst.
-    eexists _, _, _, _. split; [eassumption|reflexivity].
-  - inversion H as [| | | | | | | |? ? ? j1 ? ? c1 ? Hg H3| | | | |]; subst.
-    inversion Hg; subst.
-    rewrite (has_group_groupless_MC _ _ _ _ _ _ _ _ Hc3 H3).
-    eexists _, _, _, _. split; [eassumption|reflexivity].
-Qed.
-
-(* ------------------------------------------------------------------ *)
-(* 3. the row condition and the candidate-level fact                    *)
-(* ------------------------------------------------------------------ *)
-(* the number of the FIRST group called `name` (what glookup on t_groups finds) *)
-Definition gnum1 (name : str) (names : list (str * nat)) : option nat :=
-  match find (fun kn => str_eqb name (fst kn)) names with
-  | Some kn => Some (snd kn)
-  | None => None
-  end.
-
-Lemma glookup_map_names : forall (name : str) (f : nat -> option str) names,
-  glookup name (map (fun kn => (fst kn, f (snd kn))) names) =
-  match gnum1 name names with Some n => Some (f n) | None => None end.
-Proof.
-  intros name f names. unfold gnum1.
-  induction names as [|kn names IH]; cbn [map glookup find fst snd]; [reflexivity|].
-  destruct (str_eqb name (fst kn)); [reflexivity|exact IH].
-Qed.
-
 (* short-form citation rows: the pattern has one of the group1_total shapes, the first group named
    "page" is not group 1, every match of the body of group 1 sets it, and its most recent entry
    ends where the body ends *)
